@@ -7,6 +7,7 @@ package verifsim
 import (
 	"bytes"
 	"context"
+	"crypto"
 	"crypto/aes"
 	"crypto/cipher"
 	"crypto/hmac"
@@ -236,8 +237,85 @@ func (d *Decoder13) Open(rec Rec) (epoch uint16, ctype byte, plain []byte, seq u
 	return 0, 0, nil, 0, err
 }
 
+// c10RefServer13 puts the real client in front of a complete, honest DTLS 1.3 server built on
+// refdtls (own ECDHE, key schedule early -> handshake -> master secret, Finished, CertificateVerify
+// with the pool's genuine server key, record protection): the handshake must complete and
+// application data must pass both ways under the application traffic secrets both sides derive.
+func c10RefServer13(rc *RunCtx, p *C10Params, cfg DataCfg) {
+	s := rc.S
+	rc.R.Class = cfg.Name + "/ref-server"
+	n := NewSimNet(s, NetRules{})
+	pair, err := NewPair(s, n, cfg.C, cfg.S, nil)
+	if err != nil {
+		rc.Violate("harness", "config: %v", err)
+
+		return
+	}
+	defer pair.Teardown()
+	ref := NewRogue13(s, n, pair.SAddr, pair.CAddr)
+	leaf := certPool.Leaf["srv-ecdsa"]
+	ref.Chain = leaf.Certificate
+	ref.Signer, _ = leaf.PrivateKey.(crypto.Signer)
+	var fromClient [][]byte
+	n.Rewrite = func(em *Emission) []byte {
+		if em.Ep == "c" {
+			ref.OnClientDatagram(em)
+			fromClient = append(fromClient, ref.OpenAppData(em.Data)...)
+		}
+
+		return nil // the real server of the pair never hears from the client
+	}
+	pair.StartHandshakes(30 * time.Second)
+	s.Run(func() bool { return pair.CHs.Done }, time.Minute)
+	if ref.Note != "" {
+		rc.Note("ref-server", ref.Note)
+		s.Probe("ref-server-gave-up")
+
+		return
+	}
+	if !pair.CHs.Done || pair.CHs.Err != nil {
+		rc.Violate("ref-server-rejected:13", "the client did not complete a handshake with the reference DTLS 1.3 server (genuine chain, CertificateVerify and Finished computed by refdtls): done=%v err=%v", pair.CHs.Done, pair.CHs.Err)
+
+		return
+	}
+	s.Probe("handshake-with-reference-server")
+	rd := pair.StartReader("c")
+	var toClient [][]byte
+	for i, sz := range p.Sizes {
+		if sz > 1100 {
+			sz = 1100
+		}
+		pc := Payload("c", 2, i, sz)
+		if werr := pair.WriteSync("c", pc, 10*time.Second); werr != nil {
+			rc.Violate("ref-server-data:13", "client Write after the handshake with the reference server: %v", werr)
+
+			return
+		}
+		ps := Payload("s", 2, i, sz)
+		toClient = append(toClient, ps)
+		ref.SendAppData(ps)
+		s.Run(func() bool { return len(rd.Got) > i && len(fromClient) > i }, 5*time.Second)
+		if len(fromClient) <= i || !bytes.Equal(fromClient[i], pc) {
+			rc.Violate("ref-cannot-open:13:appdata", "the reference server cannot open the client's application record %d under the client application traffic secret it derived", i)
+
+			return
+		}
+		if len(rd.Got) <= i || !bytes.Equal(rd.Got[i], ps) {
+			rc.Violate("ref-sealed-rejected:13:appdata", "the client did not deliver application record %d sealed by the reference server under the server application traffic secret", i)
+
+			return
+		}
+	}
+	s.Probe("application-data-with-reference-server")
+}
+
 func c10Run13(rc *RunCtx, p *C10Params, cfg DataCfg) {
 	s := rc.S
+	if p.RefServer && len(cfg.C.CIDOf()) == 0 && len(cfg.S.CIDOf()) == 0 {
+		c10RefServer13(rc, p, cfg)
+
+		return
+	}
 	n := NewSimNet(s, p.Rules)
 	pair, err := NewPair(s, n, cfg.C, cfg.S, nil)
 	if err != nil {
